@@ -81,4 +81,33 @@ PROPS = {
                         "fixed-shape parents 'only then' (no other writer records on the parent)",
                         "copy_value_from / move_value_from / invalidate bodies (only mark_modified is under contract)"],
     },
+    "C09": {
+        "modules": ["contracts.c09_nested", "contracts.c02_graph_sched"],
+        "level": "proof",
+        "design_ref": "DESIGN.md section 8, C09",
+        "trusted_base": [
+            "contract of the parent's GraphValue::schedule_node (C02) and of schedule_node_impl<Nested> as used by nested_schedule_node_impl",
+            "a child's clock is never ahead of its parent's (it is only evaluated at the parent's time: proved for "
+            "single_nested_graph_evaluate / try_except; assumed for map_/mesh/switch children not under contract)",
+            "boundary binding helpers (single_nested_graph_bind_inputs/_output, schedule_sampled_input_consumers) do not touch the schedule",
+        ],
+        "assumptions": [],
+        "not_decided": ["equality of output streams between the inlined and the nested form (a relation between two programs)",
+                        "boundary binding correctness (nested_bindings.h)"],
+    },
+    "C03": {
+        "modules": ["contracts.c03_node"],
+        "level": "proof",
+        "design_ref": "DESIGN.md section 8, C03",
+        "trusted_base": [
+            "the graph evaluates a node only when its slot equals the cycle time, and the slot gets that value from an "
+            "active-input notification, a start-time request, or a scheduler arming (possibly cancelled since)",
+            "C18 contracts of NodeScheduler::advance / is_scheduled / next_scheduled_time; C02 contract of schedule_node",
+            "TSInputView::valid/all_valid/make_active/make_passive are opaque per-slot operations",
+            "selectors were range-checked at wiring for activate/deactivate",
+        ],
+        "assumptions": [],
+        "not_decided": ["reads the latest value written by the producer (C04 + link resolution)", "the user function itself",
+                        "NodeBuilder::with_passive_inputs and TSDataObserverSet (notify-once) are not yet under contract"],
+    },
 }
